@@ -38,8 +38,22 @@ package keeper
 //@   ensures [unpredictable] err == nil ==> ctxHeight(ctx) < claim.SessionHeader.SessionBlockHeight + pcWindow(sctx(ctx, claim.SessionHeader.SessionBlockHeight)) * pcBPS(sctx(ctx, claim.SessionHeader.SessionBlockHeight))
 
 // The leaf index can only be computed once the entropy block header exists, and lies in range.
+// call bookkeeping of getPseudorandomIndex
+//@ ghost priN int
+//@ ghost priOK bool
+//@ ghost priIndex int
+//@ ghost priTotal int
+//@ ghost priHeader x/pocketcore/types.SessionHeader
+//@ ghost priSessionCtx Iface
 //@ func (Keeper).getPseudorandomIndex
-//@   props C31,C12
+//@   props C31,C32,C12
+//@   modifies bigv
+//@   logs priN == old(priN) + 1
+//@   logs priOK == (result1 == nil)
+//@   logs priIndex == result0
+//@   logs priTotal == totalRelays
+//@   logs priHeader == header
+//@   logs priSessionCtx == sessionCtx
 //@   ensures [entropy-known] result1 == nil ==> header.SessionBlockHeight + pcWindow(sessionCtx) * pcBPS(sessionCtx) <= ctxHeight(ctx)
 //@   ensures [in-range] result1 == nil && totalRelays > 0 ==> 0 <= result0 && result0 < totalRelays
 
@@ -47,3 +61,75 @@ package keeper
 //@   trusted parameter getter; the range is what Params.Validate enforces (1..25)
 //@   pure_fn
 //@   ensures 1 <= res && res <= 25
+
+// ---- C32: each claim is rewarded at most once and only with a valid proof -----------------------
+// claims as ghost state: claimHasG[k] - a claim record exists under key k = claimKeyOf(address, header, type)
+//@ pure claimKeyOf(a Bytes, h x/pocketcore/types.SessionHeader, t int) Bytes
+//@ ghost claimHasG map[Bytes]bool
+//@ func (Keeper).GetClaim
+//@   trusted store read + codec: the record stored under a claim key is the claim of that address, session and evidence type
+//@   pure_fn
+//@   ensures found == claimHasG[claimKeyOf(bytes(address), header, evidenceType)]
+//@   ensures found ==> bytes(msg.FromAddress) == bytes(address) && msg.SessionHeader == header && msg.EvidenceType == evidenceType
+//@ ghost claimDelN int
+//@ ghost lastDelClaim Bytes
+//@ func (Keeper).DeleteClaim
+//@   trusted store delete under the claim key (call event)
+//@   modifies claimDelN, lastDelClaim, claimHasG
+//@   ensures result == nil ==> claimDelN == old(claimDelN) + 1 && lastDelClaim == claimKeyOf(bytes(address), header, evidenceType) && claimHasG == old(claimHasG)[claimKeyOf(bytes(address), header, evidenceType) := false]
+//@   ensures result != nil ==> claimDelN == old(claimDelN) && claimHasG == old(claimHasG)
+//@ ghost claimSetN int
+//@ ghost lastSetClaim Bytes
+//@ func (Keeper).SetClaim
+//@   trusted store write under the claim key (call event)
+//@   modifies claimSetN, lastSetClaim, claimHasG
+//@   ensures result == nil ==> claimSetN == old(claimSetN) + 1 && lastSetClaim == claimKeyOf(bytes(msg.FromAddress), msg.SessionHeader, msg.EvidenceType) && claimHasG == old(claimHasG)[claimKeyOf(bytes(msg.FromAddress), msg.SessionHeader, msg.EvidenceType) := true]
+//@   ensures result != nil ==> claimSetN == old(claimSetN) && claimHasG == old(claimHasG)
+//@ func (Keeper).GetAppFromPublicKey
+//@   trusted application lookup (x/apps keeper through an interface + key decoding)
+//@   pure_fn
+//@ func (Keeper).ReplayAttackBurnMultiplier
+//@   trusted parameter getter
+//@   pure_fn
+
+//@ func (Keeper).AwardCoinsForRelays
+//@   props C32,C26
+//@   modifies awardN, awardRelays, awardTo, awardChain, bigv
+//@   ensures [passes-arguments] awardN == old(awardN) + 1 && awardRelays == relays && awardTo == bytes(toAddr) && awardChain == chain
+//@   ensures [bigv-kept] forall p int {bigv[p]} :: isold(p) ==> bigv[p] == old(bigv[p])
+
+// ValidateProof: success means a claim of the proof's signer exists for exactly the leaf's session
+// and evidence type, the number of levels fits the claimed total, the presented leaf index is the
+// pseudorandom index derived for that claim, the Merkle proof verifies against the CLAIMED root,
+// and the claim returned is that stored claim.
+//@ func (Keeper).ValidateProof
+//@   props C32,C30,C12
+//@   modifies mvN, mvOK, mvReplay, mvRoot, mvLeaf, mvLevels, mvHeight, mvIndex, priN, priOK, priIndex, priTotal, priHeader, priSessionCtx, bigv
+//@   ensures [claim-exists] sdkError == nil ==> old(claimHasG[claimKeyOf(leafSigner(proof.Leaf), leafHeader(proof.Leaf), proof.EvidenceType)])
+//@   ensures [returns-that-claim] sdkError == nil ==> bytes(claim.FromAddress) == leafSigner(proof.Leaf) && claim.SessionHeader == leafHeader(proof.Leaf) && claim.EvidenceType == proof.EvidenceType && bytes(servicerAddr) == leafSigner(proof.Leaf)
+//@   ensures [merkle-verified] sdkError == nil ==> mvN == old(mvN) + 1 && mvOK && mvRoot == claim.MerkleRoot && mvLeaf == proof.Leaf && mvLevels == len(proof.MerkleProof.HashRanges) && mvHeight == claim.SessionHeader.SessionBlockHeight && mvIndex == proof.MerkleProof.TargetIndex
+//@   loop 0 invariant 0 - 1 <= rangeindex && rangeindex < len(proof.MerkleProof.HashRanges)
+//@   ensures [index-is-the-required-one] sdkError == nil ==> priN == old(priN) + 1 && priOK && priIndex == proof.MerkleProof.TargetIndex && priTotal == claim.TotalProofs && priHeader == claim.SessionHeader && priSessionCtx == prevCtx(ctx, claim.SessionHeader.SessionBlockHeight)
+
+// ExecuteProof: a relay proof pays for exactly the claimed number of relays to the claim's address
+// on the claim's chain, once, and deletes exactly that claim
+//@ func (Keeper).ExecuteProof
+//@   props C32,C12
+//@   modifies awardN, awardRelays, awardTo, awardChain, chalBurnN, chalBurnAmt, chalBurnAddr, claimDelN, lastDelClaim, claimHasG, bigv
+//@   ensures [relay-paid-once] isdyn(proof.Leaf, x/pocketcore/types.RelayProof) ==> awardN == old(awardN) + 1 && awardRelays == claim.TotalProofs && awardTo == old(bytes(claim.FromAddress)) && awardChain == claim.SessionHeader.Chain && chalBurnN == old(chalBurnN)
+//@   ensures [relay-claim-deleted] isdyn(proof.Leaf, x/pocketcore/types.RelayProof) && err == nil ==> claimDelN == old(claimDelN) + 1 && lastDelClaim == claimKeyOf(old(bytes(claim.FromAddress)), claim.SessionHeader, 1)
+//@   ensures [at-most-one-award] awardN == old(awardN) || awardN == old(awardN) + 1
+
+// a detected replay burns (replay multiplier x claimed proofs) from the offender
+//@ func (Keeper).HandleReplayAttack
+//@   props C32,C30,C12
+//@   modifies chalBurnN, chalBurnAmt, chalBurnAddr, bigv
+//@   ensures [burns-offender] chalBurnN == old(chalBurnN) + 1 && chalBurnAddr == bytes(address)
+
+// expiry sweep: walks the claim prefix, deletes only through the store, never pays or burns
+//@ func (Keeper).DeleteExpiredClaims
+//@   props C32,C12
+//@   modifies all
+//@   ensures [never-pays] awardN == old(awardN) && chalBurnN == old(chalBurnN)
+//@   loop 0 invariant awardN == old(awardN) && chalBurnN == old(chalBurnN)
+//@   loop 0 invariant iterator != nil && 0 <= itPos[iterator] && itPos[iterator] <= itN[iterator]
